@@ -123,7 +123,21 @@ def rule_escape(check):
         makes = [x for x in f.nodes() if hir.is_call(x) and hir.callee_name(x) == "new" and ((x.get("callee") or {}).get("path", "").startswith("swc_common::SourceMap") or "source_map::SourceMap" in (x.get("callee") or {}).get("path", ""))]
         if makes:
             creators.append((f, makes))
-    check.floor(R, "functions creating a swc SourceMap", len(creators), 2)
+    # a function that obtains its private map from a crate helper returning the map/compiler counts too
+    direct = {f.def_path for f, _ in creators}
+    changed = True
+    while changed:
+        changed = False
+        for f in prog.user_fns:
+            if f.def_path in direct:
+                continue
+            via = [x for x in f.nodes() if hir.is_call(x) and prog.resolve_local(x) is not None and prog.resolve_local(x).def_path in direct and any(w in (prog.resolve_local(x).rec.get("ret") or "") for w in ("Compiler", "SourceMap"))]
+            if via:
+                creators.append((f, via))
+                direct.add(f.def_path)
+                changed = True
+    check.floor(R, "functions creating a swc SourceMap", len(creators), 1)
+    n_ast = 0
     for f, makes in creators:
         ret = f.rec.get("ret", "")
         import re
@@ -134,6 +148,7 @@ def rule_escape(check):
         if not ast_out:
             check.ok(R, key, hir.loc(f.rec), "returns %s: no AST value escapes its private source map" % (ret[:60]))
             continue
+        n_ast += 1
         # find normalising visit on the returned value
         norm = False
         for x in hir.calls_in(f.body, name="visit_mut_with"):
@@ -149,6 +164,7 @@ def rule_escape(check):
                     if recv and recv in rets and all(x["id"] < r["id"] for r in return_exprs(f.body) if hir.place(r) == recv):
                         norm = True
         check.expect(norm, R, key, hir.loc(f.rec), "returned %s is span-normalised before it escapes" % ast_out, "%s returns %s parsed in a private SourceMap with its byte offsets intact: mappings of injected prologue code point outside the input text" % (f.name, ast_out))
+    check.floor(R, "functions returning AST parsed in a private SourceMap (the prologue parser)", n_ast, 1)
 
 
 def rule_print_args(check):
@@ -207,6 +223,9 @@ def run(check):
     check.guarded("ESCAPE", rule_escape)
     check.guarded("PRINT-ARGS", rule_print_args)
     check.guarded("PRINT-PATH", rule_print_path)
+    from . import c16 as _c16
+
+    check.guarded("COMPILER-SCOPE", _c16.rule_compiler_of_this_call)
     return {
         "explanation": "Provenance of every span initialiser of every constructed AST node (context-sensitive, parameters resolved over all call sites), inventory of span constructors / overwrites, an escape rule for AST parsed in a private source map, and constant checks of the print arguments.",
         "assumptions": ["swc's code generator emits a mapping for a node from its span and none for DUMMY_SP", "build_source_map resolves byte positions in the compiler's source map"],
